@@ -1009,6 +1009,9 @@ class Expr:
             ):
                 return True
             if (x._is_negative and y._is_positive) or (x._is_positive and y._is_negative):
+                if self.kind == "divide" and not y._is_finite:
+                    # x / inf is zero
+                    return
                 return False
         elif self.kind == "negative":
             return self.operands[0]._is_nonpositive
@@ -1053,6 +1056,9 @@ class Expr:
             if (x._is_nonpositive and y._is_positive) or (x._is_nonnegative and y._is_negative):
                 return True
             if (x._is_negative and y._is_negative) or (x._is_positive and y._is_positive):
+                if self.kind == "divide" and not y._is_finite:
+                    # x / inf is zero
+                    return
                 return False
         elif self.kind == "negative":
             return self.operands[0]._is_nonnegative
